@@ -655,7 +655,11 @@ fn describe(n: &Any) -> (String, Value, Slots, (usize, usize)) {
                     vec![],
                     loc_of(l),
                 ),
-                Expression::HexNumberLiteral(l, v) => ("E.HexNumberLiteral".into(), json!({"value": v}), vec![], loc_of(l)),
+                Expression::HexNumberLiteral(l, v) => {
+                    // "zero": every digit after 0x is 0 (TLC does not compute on strings)
+                    let zero = v.trim_start_matches("0x").trim_start_matches("0X").chars().all(|c| c == '0' || c == '_');
+                    ("E.HexNumberLiteral".into(), json!({"value": v, "zero": zero}), vec![], loc_of(l))
+                }
                 Expression::StringLiteral(v) => {
                     let (a, _) = loc_of(&v[0].loc);
                     let (_, b) = loc_of(&v[v.len() - 1].loc);
